@@ -994,10 +994,17 @@ def mech_case(ctx, rng, idx):
         return True
     if not check():
         return
-    for _ in range(n_steps):
+    # (every seventh history starts with: wrap, sensitivities on, EVERY
+    # parameter fixed, one released)
+    forced = ['wrap', 'sens_on', 'fix_all', 'release'] if idx % 7 == 3 \
+        else []
+    for step_ in range(n_steps + len(forced)):
         obj = red if red is not None else m
         op = ['set_outputs', 'set_administration', 'rename', 'fix',
-              'release', 'sens_on', 'sens_off', 'wrap'][int(rng.integers(8))]
+              'release', 'sens_on', 'sens_off', 'wrap',
+              'fix_all'][int(rng.integers(9))]
+        if step_ < len(forced):
+            op = forced[step_]
         try:
             if op == 'set_outputs':
                 states = [v.qname() for v in m._simulator._model.states()] \
@@ -1040,6 +1047,10 @@ def mech_case(ctx, rng, idx):
                 if len(nm) <= 1:
                     continue
                 red.fix_parameters({nm[int(rng.integers(len(nm)))]: 0.7})
+            elif op == 'fix_all':
+                if red is None:
+                    continue
+                red.fix_parameters({n_: 0.6 for n_ in red.parameters()})
             elif op == 'release':
                 if red is None:
                     continue
